@@ -251,3 +251,85 @@ Theorem C05_source_old_padded_width :
     TI.gen.OldPad.src_old_padded_width W w = (l + w + r)%Z.
 Proof. exact TI.proofs.OldPadTie.old_padded_width_is_box_width. Qed.
 Print Assumptions C05_source_old_padded_width.
+
+(** *** the FILL (round 5): [Padding.fill] "may be any string that occupies exactly one column
+    on a terminal screen, or an empty string" — a base character with combining marks, a glyph
+    followed by a variation selector / joiner, a blank or a glyph wrapped in SGR sequences are
+    one-column fills of SEVERAL code points.  [model/PadGen.v] takes the fill as the token
+    list [f] of the fill string under the hypothesis [OneCell f] (executed with default
+    attributes it writes exactly the cell under the cursor, advances one column, leaves the
+    attributes default); [fill * n] is [n] repetitions of the whole list.  Everything proved
+    above for a single glyph holds for every such fill. *)
+From TI Require Import model.PadGen proofs.PadGenProofs model.PadGenTie proofs.PadGenTieProofs.
+
+(** MAIN, for any one-column fill segment *)
+Theorem C05_pad_gen_rect :
+  forall fill need w h l t r b ls,
+  (forall f, fill = Some f -> OneCell f) ->
+  LinesRect need w h ls -> 0 <= l -> 0 <= t -> 0 <= r -> 0 <= b ->
+  RectG (gneed' fill need w h l t) (l + w + r) (t + h + b)
+        (pad_gen fill (l, t, r, b) w (joinlf ls)).
+Proof. exact pad_gen_rect. Qed.
+Print Assumptions C05_pad_gen_rect.
+
+(** structure: top lines of [width] fills, every line wrapped by [l] and [r] WHOLE fills,
+    bottom lines *)
+Theorem C05_pad_gen_structure :
+  forall fill l t r b w ls,
+  (forall f, fill = Some f -> OneCell f) ->
+  ls <> [] -> (forall ln, In ln ls -> nolf ln) -> 0 <= l -> 0 <= t -> 0 <= r -> 0 <= b ->
+  pad_gen fill (l, t, r, b) w (joinlf ls) = joinlf (pad_lines_gen fill (l, t, r, b) w ls).
+Proof. exact pad_gen_structure. Qed.
+Print Assumptions C05_pad_gen_structure.
+
+(** the single-glyph model of [model/Padding.v] is the instance [f = [TChar g]], and
+    [C05_pad_rect] follows from [C05_pad_gen_rect] *)
+Theorem C05_pad_gen_single_glyph :
+  (forall g, OneCell [TChar g])
+  /\ (forall fill d w R, pad_gen (glyph_fill fill) d w R = pad fill d w R)
+  /\ (forall fill need w h l t r b ls,
+        LinesRect need w h ls -> 0 <= l -> 0 <= t -> 0 <= r -> 0 <= b ->
+        RectG (need' fill need w h l t) (l + w + r) (t + h + b) (pad fill (l, t, r, b) w (joinlf ls))).
+Proof.
+  split; [exact glyph_one_cell|]. split; [exact pad_gen_glyph|exact pad_rect_is_instance].
+Qed.
+Print Assumptions C05_pad_gen_single_glyph.
+
+(** the hypothesis is decidable on the fills the correspondence uses: zero-width style
+    tokens, one glyph, zero-width style tokens, attributes default at the end *)
+Theorem C05_styled_fill_is_one_column :
+  forall f, styled_fillb f = true -> OneCell f.
+Proof. exact styled_fill_one_cell. Qed.
+Print Assumptions C05_styled_fill_is_one_column.
+
+(** a verdict 0 of the correspondence's judge on a case means: the case's fill satisfies the
+    hypothesis above and the observed output is [pad_gen] of the inner render *)
+Theorem C05_fill_tie_sound :
+  forall c, gcheck c = 0%nat ->
+  (forall f, g_fill c = Some f -> OneCell f)
+  /\ g_obs c = pad_gen (g_fill c) (gdims_of c) (g_w c) (g_inner c).
+Proof. exact gcheck_zero_sound. Qed.
+Print Assumptions C05_fill_tie_sound.
+
+(** the statement discriminates: building ONE line of fill and cutting the side margins out
+    of it BY POSITION ([pad_sliced]) is the same function for every fill that is one unit
+    long, and violates the box contract (and differs from [pad_gen]) for a one-column fill
+    of two tokens *)
+Theorem C05_sliced_margins_agree_for_single_unit_fill :
+  forall x l t r b w R, 0 <= l -> 0 <= r -> 0 <= w ->
+  pad_sliced (Some [x]) (l, t, r, b) w R = pad_gen (Some [x]) (l, t, r, b) w R.
+Proof. exact sliced_single_is_pad. Qed.
+Print Assumptions C05_sliced_margins_agree_for_single_unit_fill.
+
+Theorem C05_sliced_margins_refuted :
+  exists f d w ls,
+    OneCell f /\ length f = 2%nat /\ LinesRect all_cells w 1 ls
+    /\ (let '(l, t, r, b) := d in
+        0 <= l /\ 0 <= t /\ 0 <= r /\ 0 <= b
+        /\ RectG (gneed' (Some f) all_cells w 1 l t) (l + w + r) (t + 1 + b)
+                 (pad_gen (Some f) d w (joinlf ls))
+        /\ ~ RectG (gneed' (Some f) all_cells w 1 l t) (l + w + r) (t + 1 + b)
+                   (pad_sliced (Some f) d w (joinlf ls)))
+    /\ pad_sliced (Some f) d w (joinlf ls) <> pad_gen (Some f) d w (joinlf ls).
+Proof. exact sliced_refuted. Qed.
+Print Assumptions C05_sliced_margins_refuted.
